@@ -373,7 +373,7 @@ def coq_eval_cases(ctx, corr_module, prefix, case_type, terms, shards=NPROC, tim
         path = os.path.join(work, "%s_%d.v" % (tag, k))
         with open(path, "w") as f:
             f.write("From DustDDS Require Import Base.Machine %s.\n" % corr_module)
-            f.write("Open Scope Z_scope.\n")
+            f.write("Open Scope Z_scope.\nSet Printing Width 1000000.\nSet Printing Depth 100000000.\n")
             f.write("Definition cases : list %s := [\n" % case_type)
             f.write(";\n".join(terms[i] for i in ch))
             f.write("\n].\n")
@@ -407,7 +407,9 @@ def coq_eval_cases(ctx, corr_module, prefix, case_type, terms, shards=NPROC, tim
         except OSError:
             pass
         mb = [int(x) for x in re.findall(r"(\d+)%N", ms[0])] if ms[0] != "nil" else []
-        pairs = re.findall(r"\((\d+)%N, (\d+)%N\)", ms[1])
+        pairs = re.findall(r"\(\s*(\d+)%N\s*,\s*(\d+)%N\s*\)", ms[1])
+        if ms[1] != "nil" and len(pairs) != ms[1].count(","  ) - max(0, ms[1].count(";")) and len(pairs) != ms[1].count(";") + 1 and ms[1].strip() != "[]":
+            err = "could not parse the oracle result list of %s" % path
         model_bad += [ch[i] for i in mb]
         oracle_bad += [(ch[int(i)], int(c)) for i, c in pairs]
     return sorted(model_bad), sorted(oracle_bad), err
